@@ -1,5 +1,5 @@
 """C01 - SM simfile: serialize then parse gives back the same simfile (structural clauses)."""
-from ..rules import readers, serial, writers, census, entry, baseline
+from ..rules import readers, serial, writers, census, entry, baseline, views
 
 EXPLANATION = (
     "Static rule checking (ast + CFG/dominance + constant evaluation) of the structural conditions the SM round trip "
@@ -27,6 +27,7 @@ def c3(ctx):
 def c5(ctx):
     serial.str_is_serialize(ctx)
     serial.layout(ctx)
+    writers.charts_items(ctx)
     serial.serializer_raw_text(ctx, 'sm')
 
 
@@ -37,6 +38,7 @@ def c4(ctx):
 def c6(ctx):
     census.mechanism_census(ctx, ["serialize", "__str__", "items", "keys", "values", "__iter__", "__getitem__", "get", "__init__", "_parse", "__setitem__", "update", "setdefault", "move_to_end", "__eq__", "__ne__", "from_str", "from_msd", "_from_msd", "__delitem__", "pop", "popitem", "clear"], "SM serialize / parse", modules=["simfile.base", "simfile.sm", "simfile._private.serializable"])
     entry.constructor_funnel(ctx)
+    views.equality(ctx)
 
 def c_api(ctx):
     baseline.surface(ctx, "C01: documented surface", modules=['simfile.sm', 'simfile.base', 'simfile._private.serializable'])
@@ -46,6 +48,6 @@ CLAUSES = [
     ("C01.3", "multi-value split/join symmetry and item forms", c3),
     ("C01.4", "key-only values serialize (R-NULL)", c4),
     ("C01.5", "layout: properties, blank line, charts in order; only parameters and whitespace are written", c5),
-    ("C01.6", "no unexamined override of the writer / reader / mapping methods in the SM classes (R-CENSUS); the constructor parses whenever a text is given, also the empty one", c6),
+    ("C01.6", "no unexamined override of the writer / reader / mapping methods in the SM classes (R-CENSUS); the constructor parses whenever a text is given, also the empty one; 'equal' means same type, same ordered mapping, same charts (six fields per chart)", c6),
     ("C01.api", "public surface: signatures and defaults, constants, enumerations, blank templates, base classes as confirmed (R-API)", c_api),
 ]
